@@ -60,6 +60,9 @@ Next ==
   /\ \/ \E n \in Names, h \in Hashes : Set(n, h)
      \/ \E p \in SymOK : Set(p[1], Sym(p[2]))
      \/ \E n \in Names, h \in Hashes, o \in Hashes : CAS(n, h, o)
+     \* a conditional set may also install a symbolic value over a hash (re-attaching a detached HEAD):
+     \* the new serialisation is shorter than the one it replaces
+     \/ \E p \in SymOK, o \in Hashes : CAS(p[1], Sym(p[2]), o)
      \/ \E n \in Names \ NoRemove : Remove(n)
      \/ Pack
 
